@@ -170,10 +170,28 @@ func (e *Engine) values(ts []*Term) ([]uint64, bool) {
 		return nil, true
 	}
 	if e.lastFlat {
+		// every one-shot call may come back with another model (two solvers race): values
+		// already handed out are pinned so that all rounds of one extraction describe ONE model
 		r, vals := FlatCheck(e.flatBin, e.lastFlatConds, ts, e.flatTimeoutMs, "val")
 		if r != Sat || vals == nil {
 			return nil, false
 		}
+		conds := append([]*Term(nil), e.lastFlatConds...)
+		for i, t := range ts {
+			if t.op == OpConst {
+				continue
+			}
+			if t.w == 0 {
+				if vals[i] != 0 {
+					conds = append(conds, t)
+				} else {
+					conds = append(conds, Not(t))
+				}
+			} else {
+				conds = append(conds, Eq(t, BV(vals[i], t.w)))
+			}
+		}
+		e.lastFlatConds = conds
 		return vals, true
 	}
 	return e.solver.GetValues(ts)
